@@ -39,6 +39,8 @@ fn main() {
         "purity" => purity::run(rest),
         "ord-cases" => ord::cases(rest),
         "ord-props" => ord::props(rest),
+        "ord-show" => ord::show(rest),
+        "ord-mc-rep" => ord::mc_rep(rest),
         "ord-mc" => ord::mc(rest),
         "sk-props" => sk::props(rest),
         "sk-mc" => sk::mc(rest),
